@@ -414,7 +414,8 @@ def run(script, stack, flags, sv, allow_disabled=False, checker=None, execdata=N
     trace = [] if keep_trace else _Count()
     snap = st.snap if keep_trace else (lambda: None)
     cur = bytes(script); cs = 0
-    p2sh = bool(flags & F['P2SH']) and len(cur) == 23 and cur[0] == 0xa9 and cur[1] == 20 and cur[22] == 0x87
+    # pay-to-script-hash evaluation belongs to a legacy scriptPubKey: a witness script or tapscript leaf of that shape is an ordinary script
+    p2sh = sv == BASE and bool(flags & F['P2SH']) and len(cur) == 23 and cur[0] == 0xa9 and cur[1] == 20 and cur[22] == 0x87
     p2shstack = list(st.stack) if p2sh else None
     idx = 0
     while True:
@@ -432,7 +433,7 @@ def run(script, stack, flags, sv, allow_disabled=False, checker=None, execdata=N
         if successor:
             cur = bytes(successor); successor = None; cs = 0; st.nops = 0
             if sv in (BASE, WITNESS_V0) and len(cur) > MAX_SCRIPT: return trace, ('err', 'SCRIPT_SIZE', idx)   # every script of a spend is size-limited
-            p2sh = bool(flags & F['P2SH']) and len(cur) == 23 and cur[0] == 0xa9 and cur[1] == 20 and cur[22] == 0x87
+            p2sh = sv == BASE and bool(flags & F['P2SH']) and len(cur) == 23 and cur[0] == 0xa9 and cur[1] == 20 and cur[22] == 0x87
             p2shstack = list(st.stack) if p2sh else None
             trace.append(snap()); idx += 1
             continue
